@@ -111,6 +111,12 @@ func genRealtime(g *gen, prop string, budget int, emit func(string)) bool {
 			"ort tun burst 4 %d", "ort rtr burst 16 %d", "ort tun burst 64 %d", "ort rtr burst 2 %d", "ort grp burst 64 %d",
 			"ort rtr mixed 16 %d", "ort tun mixed 16 %d", "ort rtr mixed 64 %d", "ort grp mixed 16 %d", "ort tun mixed 8 %d",
 		}
+		// one long-lived client, a telegram arriving exactly while the application takes the previous one
+		if budget > 2 {
+			emit("ort tun handoff 2 20000")
+			emit("ort rtr handoff 2 20000")
+			budget -= 2
+		}
 		n := 0
 		for _, s := range fixed {
 			if n < budget {
